@@ -186,7 +186,7 @@ emit("suspended", #cos) local co = coroutine.wrap(function() while true do end e
 func TestC09(t *testing.T) {
 	rec := ev.New("C09")
 	defer Finish(t, rec)
-	rec.Rule("(1) exhaustive scripts over two coroutines: A's body is every sequence of <= 2 (quick) / 3 (thorough) actions, B's every sequence of <= 2, from {yield, resume the peer, resume self, read statuses/isyieldable, error, close the peer, yield inside pcall, declare a to-be-closed variable, coroutine.running, yield inside a pcall that holds a to-be-closed variable, a to-be-closed variable whose handler creates/resumes/wraps/closes coroutines, one whose handler yields}; scripts whose values the manual leaves open are run all the same and judged on the model-free clauses only (liveness-only); driven by a main program that resumes each up to three times with values, reads statuses, yields from main, closes both and resumes a dead one; (2) rapid programs from the coroutine-heavy profile (generators, wrap, nested coroutines, yield across pcall, close with pending handlers, errors inside coroutines) in several renderings; (3) kill-by-quota templates inside coroutines; (4) a coroutine suspended INSIDE a callback: 30 places where the library or the VM calls back into Lua (order functions, replacement functions and tables, readers, __tostring/__index/__newindex/arithmetic/comparison/__close/__call handlers, iterators, message handlers) x {direct, in pcall, in a nested function, in a pcall holding a to-be-closed variable} x {closed while suspended there, resumed to the end, resumed and the callback raises, closed after its own resumer was closed}, expected traces written out from the manual (they do not depend on the place). The thorough tier visits the 3-action grid in a seeded random order and stops when the shard's resident memory (2.5 GiB) or 12 minutes are used up (sampling budget, no verdict depends on it; reported under grid_stopped). Oracle: reference interpreter for values/status/errors; Go race detector (the binary is built with -race; any report attributed to the running program is a violation); a watchdog for deadlock; goroutine count back to baseline when every coroutine has ended. GOMAXPROCS is varied. Non-trivial: both coroutines were resumed and at least one of {nested resume, error delivered to a resumer, close of a suspended started coroutine, kill} occurred; distinct by program text.")
+	rec.Rule("(1) exhaustive scripts over two coroutines: A's body is every sequence of <= 2 (quick) / 3 (thorough) actions, B's every sequence of <= 2, from {yield, resume the peer, resume self, read statuses/isyieldable, error, close the peer, yield inside pcall, declare a to-be-closed variable, coroutine.running, yield inside a pcall that holds a to-be-closed variable, a to-be-closed variable whose handler creates/resumes/wraps/closes coroutines, one whose handler yields}; scripts whose values the manual leaves open are run all the same and judged on the model-free clauses only (liveness-only); driven by a main program that resumes each up to three times with values, reads statuses, yields from main, closes both and resumes a dead one; (2) rapid programs from the coroutine-heavy profile (generators, wrap, nested coroutines, yield across pcall, close with pending handlers, errors inside coroutines) in several renderings; (3) kill-by-quota templates inside coroutines; (4) a coroutine suspended INSIDE a callback: 30 places where the library or the VM calls back into Lua (order functions, replacement functions and tables, readers, __tostring/__index/__newindex/arithmetic/comparison/__close/__call handlers, iterators, message handlers) x {direct, in pcall, in a nested function, in a pcall holding a to-be-closed variable} x {closed while suspended there, resumed to the end, resumed and the callback raises, closed after its own resumer was closed}, expected traces written out from the manual (they do not depend on the place). The thorough tier visits the 3-action grid in a seeded random order and stops when the shard's share of 1500 scripts, its resident memory (2 GiB) or 12 minutes are used up (sampling budget, no verdict depends on it; reported under grid_stopped). Oracle: reference interpreter for values/status/errors; Go race detector (the binary is built with -race; any report attributed to the running program is a violation); a watchdog for deadlock; goroutine count back to baseline when every coroutine has ended. GOMAXPROCS is varied. Non-trivial: both coroutines were resumed and at least one of {nested resume, error delivered to a resumer, close of a suspended started coroutine, kill} occurred; distinct by program text.")
 	rec.Assume("schedules inside Go's runtime are sampled (GOMAXPROCS, repetition), not enumerated; the race detector reports a conflicting pair whenever both accesses execute without happens-before, independent of timing")
 	rec.Assume("a wall-clock watchdog (2 x 60 s) is used only to call a run that never returns a deadlock")
 	progcheck.ApplyKnownFindings(rec)
@@ -228,7 +228,14 @@ func TestC09(t *testing.T) {
 	}
 
 	// (1) exhaustive scripts
-	grid := luagen.CoroutineScripts(rec.Pick(2, 3))
+	const gridShare = 1500 // thorough: scripts per shard
+	var grid []luagen.GridCase
+	if !rec.Thorough() {
+		grid = luagen.CoroutineScripts(2)
+	} else {
+		// size of the full grid without building it
+		grid = luagen.CoroutineScriptsWhere(3, func(int) bool { return false })
+	}
 	rec.Set("grid_size", len(grid))
 	nviol := 0
 	// The thorough grid (A's sequences up to 3 actions) is far larger than what
@@ -250,6 +257,15 @@ func TestC09(t *testing.T) {
 			j := int((x >> 33) % uint64(i+1))
 			order[i], order[j] = order[j], order[i]
 		}
+		// build only the scripts this shard can reach
+		mine, want := 0, map[int]bool{}
+		for pos, i := range order {
+			if rec.Mine(pos) && mine < gridShare {
+				want[i] = true
+				mine++
+			}
+		}
+		grid = luagen.CoroutineScriptsWhere(3, func(i int) bool { return want[i] })
 	}
 	for pos, i := range order {
 		gc := grid[i]
@@ -257,7 +273,9 @@ func TestC09(t *testing.T) {
 			continue
 		}
 		if rec.Thorough() && gridDone%100 == 0 {
-			if rss := residentBytes(); rss > 2500<<20 {
+			if gridDone >= gridShare {
+				gridStopped = fmt.Sprint(gridShare, " scripts")
+			} else if rss := residentBytes(); rss > 2000<<20 {
 				gridStopped = fmt.Sprintf("resident memory %d MiB", rss>>20)
 			} else if time.Since(gridStart) > 12*time.Minute {
 				gridStopped = "12 minutes"
@@ -409,10 +427,16 @@ func TestC09(t *testing.T) {
 	prof.Name, prof.Coroutines, prof.Close, prof.Errors = "coroutines", 30, 6, 6
 	renderings := 2
 	n := 0
-	RunRapid(rec, "C09/programs", rec.Pick(120, 500), 0, func(t *rapid.T) {
+	overBudget := false
+	RunRapid(rec, "C09/programs", rec.Pick(120, 400), 0, func(t *rapid.T) {
 		n++
 		runtime.GOMAXPROCS(procs[n%len(procs)])
 		prog := luagen.Generate(t, prof)
+		if overBudget = overBudget || (n%20 == 0 && residentBytes() > 3000<<20); overBudget {
+			// sampling budget (see the grid): no verdict depends on it
+			rec.Discard("memory-budget (random part)")
+			return
+		}
 		specs := progcheck.ArgSpecs(prog.Args)
 		for r := 0; r < renderings; r++ {
 			var ch mlua.Chooser
